@@ -51,12 +51,15 @@ def _delete(obj, path):
 
 
 def candidates(scn):
+    grid = scn.get("grid") if isinstance(scn, dict) else None
     for path, val in list(_paths(scn)):
         if not path:
             continue
         key = path[-1]
         pkey = next((p for p in reversed(path) if isinstance(p, str)), None)
         if isinstance(key, str) and key in PROTECTED:
+            continue
+        if key == "kind" and "attempts" not in path:
             continue
         if isinstance(val, list):
             name = key if isinstance(key, str) else pkey
@@ -78,6 +81,8 @@ def candidates(scn):
                     yield c
             if key not in ("deadline_us",):
                 continue
+            if grid:
+                continue
         if isinstance(val, bool):
             if val:
                 c = copy.deepcopy(scn)
@@ -85,6 +90,8 @@ def candidates(scn):
                 yield c
         elif isinstance(val, int):
             for s in (0, 1_000_000, val // 2, val - 1 if abs(val) < 16 else None):
+                if grid and s is not None and abs(val) >= 1000 and s % grid:
+                    continue
                 if s is not None and s != val and abs(s) <= abs(val):
                     c = copy.deepcopy(scn)
                     _set(c, path, s)
